@@ -10,6 +10,7 @@ import (
 	"encoding/json"
 	"fmt"
 	"os"
+	"runtime"
 	"runtime/debug"
 	"strconv"
 	"strings"
@@ -66,6 +67,7 @@ func watchdog() {
 	// so a case that worked for a while and THEN stopped (calls that wait for each other) is seen as well as one
 	// that never got going; this goroutine and the runtime's own background work stay far below the threshold
 	winCase, winWall, winCPU := int64(-1), int64(0), int64(0)
+	lastForcedGC := int64(0)
 	for {
 		time.Sleep(100 * time.Millisecond)
 		id := curCase.Load()
@@ -81,8 +83,15 @@ func watchdog() {
 		}
 		if cpuUsed > cpuLimit {
 			kind = "cpu"
-		} else if rssBytes() > rssLimit {
-			kind = "heap"
+		} else if rssBytes() > rssLimit && wallNow-lastForcedGC > 1e9 {
+			// what counts is what the call HOLDS, not what the collector has not got round to yet (on a loaded machine
+			// the concurrent collector falls behind and the resident set overshoots): collect, hand pages back, look again
+			lastForcedGC = wallNow
+			runtime.GC()
+			debug.FreeOSMemory()
+			if rssBytes() > rssLimit {
+				kind = "heap"
+			}
 		} else if wallNow-winWall > blockedWall {
 			// a call that has been "running" for a long time while the process used next to no CPU is
 			// not slow, it is blocked (a lock that is never released, a read that never returns)
